@@ -40,11 +40,17 @@ Requests ==
   {"diff_ab", "diff_bc", "diff_badjson", "diff_missingkey", "diff_notnb", "diff_nofile",
    "merge_abc", "merge_badjson", "merge_missingkey", "merge_notnb",
    "store_6", "store_7_extra", "store_badjson", "store_missingkey", "store_notnb",
-   "close", "unknown_route"}
+   \* a schema-valid notebook whose text holds an unpaired surrogate (JSON escape \ud800): it cannot be encoded as
+   \* UTF-8, so the server may refuse it - but then nothing may change - or store it
+   "store_surrogate",
+   "close", "unknown_route",
+   \* a path that differs from an API route in one character (where the base URL has a regular expression
+   \* metacharacter, in that character): unknown, whatever the base URL looks like
+   "near_route"}
 
 IsDiff(r)  == r \in {"diff_ab", "diff_bc", "diff_badjson", "diff_missingkey", "diff_notnb", "diff_nofile"}
 IsMerge(r) == r \in {"merge_abc", "merge_badjson", "merge_missingkey", "merge_notnb"}
-IsStore(r) == r \in {"store_6", "store_7_extra", "store_badjson", "store_missingkey", "store_notnb"}
+IsStore(r) == r \in {"store_6", "store_7_extra", "store_badjson", "store_missingkey", "store_notnb", "store_surrogate"}
 ValidBody(r) == r \in {"diff_ab", "diff_bc", "merge_abc", "store_6", "store_7_extra"}
 
 Response(r) ==
@@ -58,7 +64,10 @@ Response(r) ==
 \* Alternative answers the property equally allows: in the tool modes the body of a diff / merge request is not
 \* needed, so a malformed one may be answered from the start-up arguments (what nbdime does) or be refused.
 AltResponses(r) ==
-  IF running /\ ~ValidBody(r) /\ ((IsDiff(r) /\ M.tooldiff) \/ (IsMerge(r) /\ M.toolmerge /\ ~M.badlocal)) THEN {"error"} ELSE {}
+  IF running /\ ~ValidBody(r) /\ ((IsDiff(r) /\ M.tooldiff) \/ (IsMerge(r) /\ M.toolmerge /\ ~M.badlocal)) THEN {"error"}
+  \* accepted instead of refused: the replay then expects the submitted notebook in the output file and ends there
+  ELSE IF running /\ r = "store_surrogate" /\ M.outfile THEN {"ok"}
+  ELSE {}
 
 Init == disk = Disk0 /\ running = TRUE /\ hist = <<>>
 
@@ -94,6 +103,6 @@ AnswerIndependentOfHistory ==
 DiskJson(d) == [f \in Files |-> d[f]]
 Emit == (EMIT /\ Len(hist) = MaxLen) =>
   PrintT("SEQ " \o ToJson([k \in 1..Len(hist) |->
-            [req |-> hist[k].req, resp |-> hist[k].resp, alt |-> IF hist[k].alt = {} THEN <<>> ELSE <<"error">>,
+            [req |-> hist[k].req, resp |-> hist[k].resp, alt |-> IF hist[k].alt = {} THEN <<>> ELSE IF "ok" \in hist[k].alt THEN <<"ok">> ELSE <<"error">>,
              disk |-> DiskJson(hist[k].disk), running |-> hist[k].running]]))
 =============================================================================
